@@ -5,6 +5,7 @@ import ast
 
 from ..absint import in_try_catching
 from ..absval import iter_state, NONE, ZERO, UNDEF, CMP
+from ..absint import handler_types
 from ..loader import norm, own_nodes
 from .common import (has_sentinel, rowlike, only_cmp, integral, fmt_value, analysed,
                      has_csent, has_real_key)
@@ -157,6 +158,11 @@ def run(ctx):
                       'exhausted iterator (otherwise the item already taken is lost when a later next() raises)')
     rep.rule('R20.7', 'zero-trip reduction: set.union(*xs) / max(xs) / reduce(f, xs) without default is not applied to a collection filled only inside a data loop')
     rep.rule('R20.6', 'a list is not resized inside a loop that iterates over it (exhausted-input bookkeeping)')
+    rep.rule('R20.8', 'a table iterator that can end for lack of data rows (next() under except StopIteration: return) has yielded its header before: a header-only table stays a header-only table')
+    ctx.attempt(r208, ctx, rep)
+    from .common import check_zero_trip_dicts as _ztd
+    rep.rule('R20.9', 'a plain dict that gets its entries only inside a data loop is not subscripted after the loop without a guard (KeyError when there are no data rows)')
+    ctx.floor('functions_scanned_for_dicts', ctx.attempt(_ztd, ctx, rep, 'R20.9', ctx.functions(QUICK_PREFIXES if ctx.tier == 'quick' else THOROUGH_PREFIXES)) or 0, 300)
     rep.rule('R20.3', 'zero-trip division: a divisor that may still be the literal 0 it was initialised with '
                       '(incremented only inside a data loop) is guarded')
     rep.assumptions = [
@@ -347,3 +353,119 @@ def _flag_guarded(fn, pm, node, expr):
         if ok:
             return True
     return False
+
+
+# ------------------------------------------------------------------------ R20.8
+def r208(ctx, rep):
+    """`try: row = next(it) except StopIteration: return` reached after the header was read but before it was yielded
+    turns a table with a header and no data rows into a table with no rows at all (downstream header() / cut() then
+    fail).  Path-sensitive in the two facts that matter: (some row of a source has been read, something has been
+    yielded) -- the state is the set of pairs that can hold."""
+    from ..absint import Interp, BaseDomain, ANY
+    from ..tables import sources_of
+
+    class ReadYield(BaseDomain):
+        def __init__(self, read_nodes, watch):
+            self.read_nodes = read_nodes      # id(node) of next() calls / for statements that take a row of a source
+            self.watch = watch                # id(next call) -> event, the guarded reads under test
+            self.bad = {}
+
+        def entry_state(self):
+            return frozenset([(False, False)])
+
+        def join(self, a, b):
+            return a | b
+
+        def equal(self, a, b):
+            return a == b
+
+        def may_raise(self, s, st):
+            return {ANY, 'StopIteration'}
+
+        def may_raise_expr(self, e, st):
+            return {ANY, 'StopIteration'}
+
+        def may_raise_for(self, s, st):
+            return {ANY}
+
+        def _step(self, node, st):
+            # evaluation order inside one statement: reads, then the yield of the statement
+            reads = [x for x in ast.walk(node) if id(x) in self.read_nodes]
+            for x in reads:
+                if id(x) in self.watch and any(r and not y for r, y in st):
+                    self.bad[id(x)] = True
+                st = frozenset((True, y) for r, y in st)
+            if any(isinstance(x, (ast.Yield, ast.YieldFrom)) for x in ast.walk(node)):
+                st = frozenset((r, True) for r, y in st)
+            return st
+
+        def exec_simple(self, s, st):
+            return self._step(s, st)
+
+        def exec_test(self, e, st):
+            return self._step(e, st)
+
+        def enter_for(self, s, st):
+            return st
+
+        def bind_for(self, s, st):
+            if id(s) in self.read_nodes:
+                return frozenset((True, y) for r, y in st)
+            return st
+
+    targets = []
+    for v in ctx.views.real_views():
+        if v.iter is None or v.iter_kind == 'abstract':
+            continue
+        if not any(c.fq == 'petl.util.base:Table' for c in ctx.res.mro(v.cls)):
+            continue
+        cands = [v.iter] if v.iter.is_generator else [f for f, _ in v.iter_targets if f is not None and f.is_generator]
+        for f in cands:
+            if f not in targets:
+                targets.append(f)
+    n = 0
+    for fn in targets:
+        if not fn.module.name.startswith(('petl.transform', 'petl.util')):
+            continue
+        fa, events = analysed(ctx, fn)
+        pm = fa.parents()
+        read_nodes = set()
+        for ev in events:
+            if ev.kind == 'next' and sources_of(ev.info['iter']):
+                read_nodes.add(id(ev.node))
+            elif ev.kind == 'for' and sources_of(ev.info['iter']):
+                read_nodes.add(id(ev.node))
+        watch = {}
+        for ev in events:
+            if not (ev.kind == 'next' and sources_of(ev.info['iter']) and not ev.info.get('has_default')):
+                continue
+            tr = None
+            cur = ev.node
+            while id(cur) in pm:
+                par = pm[id(cur)]
+                if isinstance(par, ast.Try) and any(cur is b for b in par.body) and \
+                        any(handler_types(h) & {'StopIteration', 'Exception', 'BaseException'} for h in par.handlers):
+                    tr = par
+                    break
+                if isinstance(par, (ast.FunctionDef, ast.Lambda)):
+                    break
+                cur = par
+            if tr is None:
+                continue
+            if any(handler_types(h) & {'StopIteration', 'Exception', 'BaseException'} and
+                   any(isinstance(x, ast.Return) for b in h.body for x in ast.walk(b)) for h in tr.handlers):
+                watch[id(ev.node)] = ev
+        if not watch:
+            continue
+        dom = ReadYield(read_nodes, watch)
+        Interp(fn.node, dom).run()
+        for k, ev in watch.items():
+            n += 1
+            if dom.bad.get(k):
+                rep.violated('R20.8', fn, norm(ev.node)[:50],
+                             'this next() can be reached after the header was read and before anything was yielded; when the '
+                             'source has a header but no data rows it is exhausted and the handler returns: the result is a '
+                             'table without any row instead of the header alone', ev.node)
+            else:
+                rep.held('R20.8', fn, norm(ev.node)[:50], 'not reachable between reading the header and yielding it', ev.node)
+    ctx.floor('guarded_first_row_reads', n, 8)
